@@ -44,12 +44,21 @@ var Properties = map[string]PropertyDef{
 		}
 		return c
 	}},
+	"C12": {Cases: C12Cases, Config: func(tier string) Config {
+		return Config{
+			Functions: []string{"serde.MarshalCBOR/UnmarshalCBOR (fxamacker/cbor strict mode, run natively)", "kw.Share / shamir.Share / feldman.LiftedShare / pedersen.Share / polynomials.Polynomial UnmarshalCBOR → constructors", "mat.Matrix / ModuleValuedMatrix / SquareMatrix UnmarshalCBOR", "msp.MSP.UnmarshalCBOR → NewMSP", "feldman.VerificationVector.UnmarshalCBOR → NewVerificationVector", "mpc.BasePublicMaterial.UnmarshalCBOR → NewBasePublicMaterial", "mpc.BaseShard.UnmarshalCBOR → NewBaseShard (share must lift to its public share)", "pedersencom.CommitmentKey/TrapdoorKey.UnmarshalCBOR", "elgamal.PublicKey/SecretKey.UnmarshalCBOR", "schnorrlike.PublicKey.UnmarshalCBOR"},
+			Bounds:    map[string]any{"leaves": "every field / group element inside a DTO is an arbitrary symbolic value mod the real group order (keys, share values) — the verdict 'accepted ⇔ validity predicate' is the solver's for all of them", "shapes": "concrete corpus: vector lengths D−1, D, D+1; matrix shapes incl. zero, negative and overflowing dimensions; ID 0; nil leaves; non-shareholder IDs; 3 policies (7 thorough)", "containers": "for each valid encoding: trailing byte, truncation, empty input, duplicate key, unknown field, indefinite-length map — executed natively through the real CBOR library"},
+			Assumes:   []string{"elements are encoded as interned handles (provably equal terms share a handle), so byte-level determinism is decided up to the element encoding, which is C13's subject", "fresh random draws non-zero"},
+			Outside:   []string{"the ~120 remaining serialisable types (protocol messages, Paillier, BLS, curve points, access structures: integers and real curve bytes are not symbolic in E2)", "arbitrary byte strings (the CBOR library itself is reflection-based)", "moduli sizes"},
+		}
+	}},
 	"C04": {Cases: C04Cases, Config: func(tier string) Config {
 		c := Config{
 			Functions: []string{"gennaro.Participant.Round1/Round2/Round3 (consuming rounds under deviation)", "gennaro message Validate", "network.ValidateIncomingMessages", "pedersen.Scheme.Verify", "feldman.Scheme.Verify", "fiatshamir Verifier.Verify / zkmodule.Verify", "batch_schnorr / okamoto Verify", "base.GetMaliciousIdentities / ShouldAbort", "mpc.NewBaseShard",
-				"redistribute.Participant.Round2/Round3 and Round1Broadcast/Round1P2P/Round2Broadcast/Round2P2P.Validate under deviation", "hjky.Participant.Round2 under deviation", "lindell22 signing.Cosigner.Round2/Round3, Aggregator.Aggregate under deviation"},
+				"redistribute.Participant.Round2/Round3 and Round1Broadcast/Round1P2P/Round2Broadcast/Round2P2P.Validate under deviation", "hjky.Participant.Round2 under deviation", "lindell22 signing.Cosigner.Round2/Round3, Aggregator.Aggregate under deviation", "canetti.Participant.Round2/Round3/Round4 under deviation"},
 			Bounds: map[string]any{"deviation": "one field of one message of one sender (per-recipient for unicasts, uniform for broadcasts), or the deviator's whole dealing / starting shard replaced by a self-consistent forgery; offset δ symbolic with δ≠0",
 				"faults gennaro":      "unicast share secret/blinding component, Pedersen / Feldman vector entries (proof unchanged), Feldman vector re-proved by the deviator for another column, vectors truncated/extended by one entry, dropped broadcast",
+				"faults canetti":      "round-1 commitment bit, opened message: vector entry shifted (δ), rho bit, witness bit, wrong sharing ID; private share shifted / extended / truncated; round-3 proof response / commitment shifted (δ)",
 				"faults lindell22":    "partial signature response / nonce commitment, opened nonce, zero-sharing dealing replaced by a consistent dealing of δ (deviator at each of the 3 positions), zero share shifted",
 				"faults redistribute": "zero-sharing dealing of δ, zero share / zero vector entry shifted, next-share contribution shifted / extended / truncated, next / previous / zero verification vector entries shifted, forged self-consistent previous shard; refresh, recovery with and without anchor, redistribution to multi-row structures; deviator at every previous-holder position",
 				"structures":          "threshold, CNF, non-ideal gate tree (3 parties); more in thorough"},
@@ -60,10 +69,10 @@ var Properties = map[string]PropertyDef{
 	}},
 	"C03": {Cases: C03Cases, Config: func(tier string) Config {
 		c := Config{
-			Functions: []string{"gennaro.NewParticipant", "gennaro.Participant.Round1/Round2/Round3", "pedersen.Scheme.DealRandomAndRevealDealerFunc/Verify", "feldman.Scheme.Verify", "okamoto.NewProtocol", "batch_schnorr.NewProtocol", "sigand.Compose", "maurer09.Protocol.*", "fiatshamir.NewCompiler/Prover.Prove/Verifier.Verify", "zkmodule.Prove/Verify", "pedersencom.ExtractCommitmentKey", "session.NewContext", "mpc.NewBaseShard/NewBasePublicMaterial", "trusteddealer.Deal", "feldman.Scheme.Reconstruct/ReconstructInTheExponent"},
+			Functions: []string{"canetti.NewParticipant", "canetti.Participant.Round1/Round2/Round3/Round4", "canetti CommitmentMessage.Bytes / message Validate", "hashcom Commit/Open (real BLAKE2b over handles)", "zkmodule.Commit/Prove/Verify", "gennaro.NewParticipant", "gennaro.Participant.Round1/Round2/Round3", "pedersen.Scheme.DealRandomAndRevealDealerFunc/Verify", "feldman.Scheme.Verify", "okamoto.NewProtocol", "batch_schnorr.NewProtocol", "sigand.Compose", "maurer09.Protocol.*", "fiatshamir.NewCompiler/Prover.Prove/Verifier.Verify", "zkmodule.Prove/Verify", "pedersencom.ExtractCommitmentKey", "session.NewContext", "mpc.NewBaseShard/NewBasePublicMaterial", "trusteddealer.Deal", "feldman.Scheme.Reconstruct/ReconstructInTheExponent"},
 			Bounds:    map[string]any{"parties": "2–3 (quick) / up to 4 (thorough)", "structures": "threshold, unanimity, CNF, hierarchical, non-ideal gate tree", "every party's random stream": "independent symbolic variables", "compiler": "Fiat–Shamir"},
 			Assumes:   []string{"random-oracle idealisation: transcript/hash outputs depend on hashed elements only through equality (interned handles); the Pedersen generator h = hash-to-group output has an unknown symbolic discrete log, h ∉ {identity, g}", "fresh random draws are non-zero", "sigand's goroutines interleave as under GOMAXPROCS=1"},
-			Outside:   []string{"real curves", "Fischlin compilers", "networked runner", "store/reload (C12)", "Lindell17 key generation (Paillier)", "Canetti DKG (hash commitments over byte strings: class B)"},
+			Outside:   []string{"real curves", "Fischlin compilers", "networked runner", "store/reload (C12)", "Lindell17 key generation (Paillier)"},
 		}
 		return c
 	}},
